@@ -43,7 +43,7 @@ def space(ctx):
             "edge_sets": "all 2^(n*n) masks, kept iff every node reachable from node 0",
             "edge_kinds_for_<=3_nodes": ["absent", "normal", "catch"],
             "successor_insertion_orders": "all, for n <= %d" % (4 if ctx.thorough else 3),
-            "dex_files": D.DEX_FILES}
+            "dex_files": D.dex_files(ctx)}
 
 
 def shards(ctx):
@@ -51,7 +51,7 @@ def shards(ctx):
     s += [("bin", 4, lo, lo + CH4) for lo in range(0, 1 << 16, CH4)]
     s += [("tri", 1, 0, 1), ("tri", 2, 0, 1)] + [("tri", 3, k, 9) for k in range(9)]
     s += [("ord", 2, 0, 16)] + [("ord", 3, lo, lo + 64) for lo in range(0, 512, 64)]
-    for name in D.DEX_FILES:
+    for name in D.dex_files(ctx):
         parts = 8 if name.endswith("classes.dex") else 1
         s += [("dex", name, k, parts) for k in range(parts)]
     if ctx.thorough:
@@ -65,11 +65,12 @@ def judge(g, nodes, rows, entry=0):
     """Runs the real immediate_dominators on the real Graph `g` and compares with the reference.
     Returns (message or None, reference idoms, dominator sets)."""
     n = len(nodes)
-    want = domtree.idoms(n, rows, entry)
+    doms = domtree.dominator_sets(n, rows, entry)
+    want = domtree.idoms(n, rows, entry, doms)
     try:
         got = g.immediate_dominators()
     except Exception as e:      # noqa
-        return "immediate_dominators raised %s: %s" % (type(e).__name__, e), want, None
+        return "immediate_dominators raised %s: %s" % (type(e).__name__, e), want, doms
     pos = {nd: i for i, nd in enumerate(nodes)}
     bad = []
     for v, d in sorted(want.items()):
@@ -82,12 +83,13 @@ def judge(g, nodes, rows, entry=0):
         if gi != d:
             bad.append("node %d: idom %r, definition says %r" % (v, gi, d))
     if bad:
-        return "; ".join(bad[:6]), want, None
-    return None, want, None
+        return "; ".join(bad[:6]), want, doms
+    return None, want, doms
 
 
-def features(n, rows, edges):
-    doms = domtree.dominator_sets(n, rows, 0)
+def features(n, rows, edges, doms=None):
+    if doms is None:
+        doms = domtree.dominator_sets(n, rows, 0)
     shp = G.shape(n, rows, doms)
     selfloop = any((rows[u] >> u) & 1 for u in range(n))
     catch = any(len(e) > 2 and e[2] == "c" for e in edges)
@@ -112,14 +114,14 @@ def has_join(n, rows):
 def one_enum(acc, nodes, n, edges, fam, stats=True):
     rows = G.rows_of_edges(n, edges)
     g = D.build(nodes[:n], edges)
-    msg, want, _ = judge(g, nodes[:n], rows)
+    msg, want, doms = judge(g, nodes[:n], rows)
     nt = n >= 3 and has_join(n, rows)
     acc.n += 1
     if nt:
         acc.nt_disjoint += 1
     acc.outcomes.add(hash(tuple(-1 if want[v] is None else want[v] for v in range(n))) & 0xffffffffffff)
     if stats:
-        shp, selfloop, catch = features(n, rows, edges)
+        shp, selfloop, catch = features(n, rows, edges, doms)
         acc.count("graphs_" + shp)
         if selfloop:
             acc.count("graphs_with_self_loop")
